@@ -1236,8 +1236,9 @@ package gogen
 //@ requires cb != nil && cb.pkg != nil && cb.pkg.names != nil && cb.current.scope != nil && p.pss != nil && StkWf(cb) && forall(i, 0, len(cb.stk.data), cb.stk.data[i] != nil && cb.stk.data[i].Type != nil)
 //@ requires imp(src != nil, len(src) >= 1)
 //@ loop 0 invariant len(args) == n && imp(rangeidx >= 0, typ == ite(typeis(args[rangeidx].Type, *TypeType), args[rangeidx].Type.(*TypeType).typ, args[rangeidx].Type))
+//@ loop 0 invariant imp(rangeidx >= 0 && !typeis(args[rangeidx].Type, *TypeType), args[rangeidx].Type == asI(types.Typ[types.UntypedNil], types.Type))
 //@ ensures len(cb.stk.data) == old(cb.current.base)
-//@ assertcall@C03 NewParam: imp(n == 1 && typeis(args[0].Type, *TypeType), arg_typ == args[0].Type.(*TypeType).typ)
+//@ assertcall@C03 NewParam: imp(n == 1 && typeis(args[0].Type, *TypeType) && args[0].Type.(*TypeType).typ != asI(types.Typ[types.UntypedNil], types.Type), arg_typ == args[0].Type.(*TypeType).typ)
 //@ assertcall@C03 NewParam: imp(n != 1, arg_typ == asI(pss.xType, types.Type))
 //@ assertcall@C03 NewParam: imp(n == 1 && !typeis(args[0].Type, *TypeType), arg_typ == asI(pss.xType, types.Type))
 //@ assertcall@C03 NewParam: arg_name == pss.name && arg_pkg == cb.pkg.Types
